@@ -341,6 +341,20 @@ def check_value(ctx, bucket, kernel, got, ref, S, u, what):
     return ratio
 
 
+def layout_or_value(bprefix, layout, v, contiguous_ok):
+    """A failure on a non-contiguous / read-only view: if the same values in a fresh
+    C-contiguous array pass, the wrapper mishandles the layout (one stable bucket, whatever
+    garbage was read); otherwise it is a value error."""
+    if layout != "C":
+        try:
+            ok = contiguous_ok()
+        except Exception:  # noqa: BLE001
+            ok = False
+        if ok:
+            return Violation(f"{bprefix}:layout:{layout}", v.message)
+    return v
+
+
 def call_guarded(bucket_prefix, fn, *args):
     """Call library code that must not raise on in-domain input."""
     try:
@@ -368,6 +382,8 @@ def _perm_call(kernel, via):
 
 def prop_perm(case, ctx, region="main"):
     kernel = case["k"]
+    if _disabled(ctx, kernel):
+        return
     rows, cols = list(case["rows"]), list(case["cols"])
     nr, nc = len(rows), len(cols)
     safe = perm_is_safe(rows)
@@ -774,6 +790,8 @@ def prop_tor(case, ctx):
     layout = case["layout"]
     u = unit_roundoff(dtype)
     name = "torontonian" if kernel == "tor" else "loop_torontonian"
+    if _disabled(ctx, name):
+        return
     bprefix = f"C04:{name}"
     try:
         ref, S = O.torontonian_ref(A, gamma if kernel == "ltor" else None)
@@ -802,8 +820,16 @@ def prop_tor(case, ctx):
     want = np.float32 if dtype == "f32" else np.float64
     if got.dtype != want or got.shape != ():
         raise Violation(f"{bprefix}:result-dtype", f"{got.dtype}{got.shape} for {dtype}")
-    check_value(ctx, f"{bprefix}:value:{dtype}", name, float(got), ref, S, u,
-                f"{name} d={d} fam={case['fam']} dtype={dtype} layout={layout}")
+    try:
+        check_value(ctx, f"{bprefix}:value:{dtype}", name, float(got), ref, S, u,
+                    f"{name} d={d} fam={case['fam']} dtype={dtype} layout={layout}")
+    except Violation as v:
+        def contiguous_ok():
+            Ac = np.array(A, copy=True, order="C")
+            g2 = _tor_mod.torontonian(Ac) if kernel == "tor" else \
+                _tor_mod.loop_torontonian(Ac, np.array(gamma, copy=True))
+            return abs(float(np.asarray(g2)) - ref) <= K_TOL * u * S + 2 * u * abs(ref)
+        raise layout_or_value(bprefix, layout, v, contiguous_ok)
 
 
 @st.composite
@@ -826,6 +852,8 @@ def tor_cases(draw):
 # =====================================================================================
 
 def prop_pf(case, ctx):
+    if _disabled(ctx, "pfaffian"):
+        return
     n = int(case["n"])
     dtype = case["dtype"]
     A = cast(build_skew(case["fam"], n, case["seed"], case["scale"]), dtype)
@@ -851,8 +879,14 @@ def prop_pf(case, ctx):
     if got.dtype != want or got.shape != ():
         raise Violation(f"{bprefix}:result-dtype", f"{got.dtype}{got.shape} for {dtype}")
     g = float(got)
-    check_value(ctx, f"{bprefix}:value:{dtype}", "pfaffian", g, ref, S, u,
-                f"pfaffian n={n} fam={case['fam']} dtype={dtype} layout={layout}")
+    try:
+        check_value(ctx, f"{bprefix}:value:{dtype}", "pfaffian", g, ref, S, u,
+                    f"pfaffian n={n} fam={case['fam']} dtype={dtype} layout={layout}")
+    except Violation as v:
+        def contiguous_ok():
+            g2 = float(np.asarray(fn(np.array(A, copy=True, order="C"))))
+            return abs(g2 - ref) <= K_TOL * u * S + 2 * u * abs(ref)
+        raise layout_or_value(bprefix, layout, v, contiguous_ok)
     # Pf^2 = det (exact integers inside the oracle; here on the library value)
     if n % 2 == 0 and math.isfinite(det):
         tol2 = 2 * abs(ref) * (K_TOL * u * S + 2 * u * abs(ref)) + (K_TOL * u * S) ** 2 \
@@ -963,6 +997,8 @@ def prop_jax(case, ctx):
         _jax_state.update(perm=perm, jnp=jnp, conn=JaxConnector())
     perm, jnp = _jax_state["perm"], _jax_state["jnp"]
     rows, cols = case["rows"], case["cols"]
+    if _disabled(ctx, "permanent"):
+        return
     if not perm_is_safe(rows):
         ctx.exclude(B_PERM_OVF)
         return
@@ -1002,6 +1038,118 @@ def run_jax(ctx, tier):
             seen.add(v.bucket)
 
 
+
+# =====================================================================================
+# crash canary: a native defect that kills the process (SIGFPE, SIGSEGV, abort) must
+# become a violation with its own bucket, not a dead worker.  A small subprocess that
+# loads only the freshly built extension modules (no piquasso import) runs every kernel
+# on a few fixed inputs; a kernel that dies there is reported and switched off for the
+# in-process parts of this shard (counted as excluded).
+# =====================================================================================
+
+DISABLED: set = set()
+
+_CANARY_SRC = r"""
+import importlib.util, sys, numpy as np
+paths = dict(a.split('=', 1) for a in sys.argv[2:])
+skip = set(sys.argv[1].split(',')) if sys.argv[1] else set()
+def load(name):
+    spec = importlib.util.spec_from_file_location(name, paths[name])
+    m = importlib.util.module_from_spec(spec); spec.loader.exec_module(m); return m
+pm, tm, fm = load('permanent'), load('torontonian'), load('pfaffian')
+rng = np.random.Generator(np.random.PCG64(7))
+def perm_inputs():
+    for nr, nc, rows, cols in [(1, 1, [1], [1]), (2, 2, [1, 1], [1, 1]), (2, 2, [2, 1], [1, 2]),
+                               (2, 2, [3, 3], [3, 3]), (2, 2, [0, 2], [1, 1]), (3, 3, [2, 1, 1], [1, 1, 2]),
+                               (3, 2, [4, 0, 3], [5, 2]), (2, 2, [9, 8], [8, 9]), (4, 4, [1] * 4, [1] * 4),
+                               (2, 2, [0, 0], [0, 0])]:
+        A = rng.normal(size=(nr, nc)) + 1j * rng.normal(size=(nr, nc))
+        for dt in (np.complex128, np.complex64):
+            yield A.astype(dt), np.array(rows), np.array(cols)
+def spd(d):
+    L = rng.normal(size=(2 * d, 2 * d)) * 0.4
+    return np.eye(2 * d) - (np.eye(2 * d) * 0.8 + L @ L.T / (2 * d))
+kernels = {
+    'permanent': lambda: [pm.permanent(A, r, c) for A, r, c in perm_inputs()],
+    'permanent_laplace': lambda: [pm.permanent_laplace(A, r, np.array([c[0] + 1, *c[1:]]))
+                                  for A, r, c in perm_inputs()],
+    'torontonian': lambda: [tm.torontonian(spd(d).astype(dt)) for d in (0, 1, 2, 3, 4)
+                            for dt in (np.float64, np.float32)],
+    'loop_torontonian': lambda: [tm.loop_torontonian(spd(d).astype(dt), (rng.normal(size=2 * d) * 0.5).astype(dt))
+                                 for d in (0, 1, 2, 3, 4) for dt in (np.float64, np.float32)],
+    'pfaffian': lambda: [fm.pfaffian(((lambda B: B - B.T)(rng.normal(size=(n, n)))).astype(dt))
+                         for n in (0, 1, 2, 4, 6, 8) for dt in (np.float64, np.float32)],
+}
+for name, fn in kernels.items():
+    if name in skip:
+        continue
+    print('START', name, flush=True)
+    fn()
+    print('DONE', name, flush=True)
+"""
+
+
+def run_canary(ctx, tier):
+    import signal
+    import subprocess
+    import sys
+
+    from lib import native_build
+
+    sos = native_build.build(["permanent", "torontonian", "pfaffian"])
+    args = [f"{k}={v}" for k, v in sos.items()]
+    for _ in range(6):
+        p = subprocess.run([sys.executable, "-c", _CANARY_SRC, ",".join(sorted(DISABLED)), *args],
+                           capture_output=True, text=True, timeout=600)
+        started = [ln.split()[1] for ln in p.stdout.splitlines() if ln.startswith("START")]
+        done = {ln.split()[1] for ln in p.stdout.splitlines() if ln.startswith("DONE")}
+        ctx.count("canary_kernels_ok", len(done))
+        if p.returncode == 0:
+            return
+        crashed = next((k for k in started if k not in done), None)
+        if crashed is None:
+            raise RuntimeError(f"canary failed outside a kernel: rc={p.returncode}\n{p.stderr[-2000:]}")
+        if p.returncode < 0:
+            try:
+                how = signal.Signals(-p.returncode).name
+            except ValueError:
+                how = f"signal-{-p.returncode}"
+        else:
+            how = "exception"
+        bucket = f"C04:{crashed}:crash:{how}"
+        msg = (f"{crashed} killed the interpreter ({how}) on a fixed small input of the canary "
+               f"(multiplicities <= 9, dimension <= 4); stderr: {p.stderr[-300:]}")
+        if ctx.is_known(bucket):
+            ctx.known_hits[bucket] += 1
+        else:
+            ctx.add_failure("native_canary", bucket, {"kernel": crashed}, msg)
+        DISABLED.add(crashed)
+        ctx.exclude(bucket)
+
+
+def prop_canary(case, ctx):
+    """Replay of a canary failure: run the canary for that kernel only."""
+    import subprocess
+    import sys
+
+    from lib import native_build
+
+    sos = native_build.build(["permanent", "torontonian", "pfaffian"])
+    others = {"permanent", "permanent_laplace", "torontonian", "loop_torontonian",
+              "pfaffian"} - {case["kernel"]}
+    p = subprocess.run([sys.executable, "-c", _CANARY_SRC, ",".join(sorted(others)),
+                        *[f"{k}={v}" for k, v in sos.items()]], capture_output=True, text=True)
+    ctx.case(case, True, ["canary_replay"])
+    if p.returncode != 0:
+        raise Violation(f"C04:{case['kernel']}:crash:rc{p.returncode}", p.stderr[-400:])
+
+
+def _disabled(ctx, kernel) -> bool:
+    if kernel in DISABLED:
+        ctx.exclude(f"C04:{kernel}:crash")
+        return True
+    return False
+
 # =====================================================================================
 # parts
 # =====================================================================================
@@ -1009,12 +1157,13 @@ def run_jax(ctx, tier):
 def parts(tier):
     all_parts = _all_parts(tier)
     if _ONLY_PARTS:
-        return [p for p in all_parts if p.name in _ONLY_PARTS]
+        return [p for p in all_parts if p.name in _ONLY_PARTS or p.name == "native_canary"]
     return all_parts
 
 
 def _all_parts(tier):
     return [
+        Part("native_canary", prop_canary, kind="custom", run=run_canary),
         Part("oracle_selfcheck", prop_selfcheck, kind="enum", cases=selfcheck_cases),
         Part("perm_int_overflow", prop_perm_overflow, kind="enum", cases=overflow_cases),
         Part("perm", prop_perm, strategy=perm_cases(),
